@@ -507,10 +507,11 @@ Example html_svg_quote_fixed :
 Proof. eexists. split; vm_compute; reflexivity. Qed.
 
 
-(* ---- finding c09-svg:comment-endtag: an end tag of the element inside a comment ends the SVG token -------------------- *)
-(* <svg><!-- </svg> --><g/></svg>x : SVG token "<svg><!-- </svg>" (16 bytes), then Text " -->" *)
-Lemma html_svg_comment_endtag_refuted_proof :
+(* ---- the former finding c09-svg:comment-endtag (fixed in /repo f26ca9a): comments, CDATA sections and processing
+   instructions inside svg / math are skipped ---- *)
+(* <svg><!-- </svg> --><g/></svg>x : the SVG token is the whole subtree (30 bytes), then Text "x" *)
+Example html_svg_comment_endtag_fixed :
   let d := [60;115;118;103;62;60;33;45;45;32;60;47;115;118;103;62;32;45;45;62;60;103;47;62;60;47;115;118;103;62;120] in
   exists tr, run no_tmpl 2 (new_lexer d) = Ok tr /\
-    map (fun r => (fst (fst r), snd (fst r))) tr = [(SvgT, Some (mkSl 0 16)); (TextT, Some (mkSl 16 4))] /\ len d = 31.
+    map (fun r => (fst (fst r), snd (fst r))) tr = [(SvgT, Some (mkSl 0 30)); (TextT, Some (mkSl 30 1))] /\ len d = 31.
 Proof. eexists. split; [vm_compute; reflexivity|split; reflexivity]. Qed.
